@@ -20,6 +20,14 @@
 //	subshare <ids> <j> <scalar> <msg>      as sig, but j's partial is Sign(<scalar>, msg)
 //	subindex <ids> <j> <k> <msg>           as sig, but j's partial is share k's signature
 //	submsg <ids> <j> <msg> <msg2>          as sig, but j signs <msg2>
+//	vfy <ids> <j> <k> <msg> <w1> <w2> <w3> <w4>
+//	                                       statelessness of Verify: A = aggregate of <ids> over msg, B = share j's
+//	                                       partial over msg; the SAME signature bytes are verified against the other
+//	                                       messages w1..w4 and under other keys, before and after the successful
+//	                                       verifications, and the right ones repeatedly
+//	                                       -> pre=<12 bits> right=<4 bits> post=<12 bits> again=<2 bits>
+//	                                          12 bits: A under group key vs w1..w4, B under pubshare j vs w1..w4,
+//	                                          A under pubshare j, A under pubshare k, B under group key, B under pubshare k
 //
 // `new` starts a fresh episode (reset op).
 package main
@@ -291,6 +299,14 @@ func (e *episode) doSig(run *hx.Run, ids []int, msg []byte) string {
 		}
 		return es
 	}
+	if ver { // the accepted signature must not be accepted for another message afterwards
+		if sig, err := tbls.ThresholdAggregate(parts); err == nil {
+			other := append(append([]byte{}, msg...), 0x5a)
+			if tbls.Verify(e.groupPK, other, sig) == nil {
+				run.Violate("tbls:verify_accepts_other_message", fmt.Sprintf("n=%d t=%d ids=%v: aggregate accepted for its message %x is then accepted for %x", e.n, e.t, ids, msg, other))
+			}
+		}
+	}
 	if e.qualified(ids) {
 		if !agg {
 			run.Violate("tbls:aggregate_not_group_signature", fmt.Sprintf("n=%d t=%d ids=%v: ThresholdAggregate differs from Sign(secret)", e.n, e.t, ids))
@@ -303,6 +319,71 @@ func (e *episode) doSig(run *hx.Run, ids []int, msg []byte) string {
 		run.Count("sig:below_threshold")
 	}
 	return fmt.Sprintf("agg=%s ver=%s", b01(agg), b01(ver))
+}
+
+// doVfy exercises Verify as a function of (key, message, signature) only: whatever was verified
+// before, the same signature bytes must be rejected for every other message and every other key.
+func (e *episode) doVfy(run *hx.Run, ids []int, j, k int, msg []byte, wrong [][]byte) string {
+	parts := e.partials(run, ids, msg, false)
+	A, err := tbls.ThresholdAggregate(parts)
+	if err != nil {
+		return "err"
+	}
+	B, err := e.sign(e.shares[j], msg)
+	if err != nil {
+		return "err"
+	}
+	G, Pj, Pk := e.groupPK, e.pubshares[j], e.pubshares[k]
+	v := func(key tbls.PublicKey, m []byte, sig tbls.Signature) bool { return tbls.Verify(key, m, sig) == nil }
+	desc := fmt.Sprintf("n=%d t=%d ids=%v j=%d k=%d", e.n, e.t, ids, j, k)
+	negatives := func(phase string) string {
+		var b strings.Builder
+		for _, c := range []struct {
+			name string
+			key  tbls.PublicKey
+			sig  tbls.Signature
+		}{{"aggregate under group key", G, A}, {"partial under its pubshare", Pj, B}} {
+			for i, w := range wrong {
+				ok := v(c.key, w, c.sig)
+				if ok && !bytes.Equal(w, msg) {
+					run.Violate("tbls:verify_accepts_other_message", fmt.Sprintf("%s (%s): %s signed over %x accepted for message %d %x", desc, phase, c.name, msg, i+1, w))
+				}
+				b.WriteString(b01(ok))
+			}
+		}
+		for _, c := range []struct {
+			name string
+			key  tbls.PublicKey
+			sig  tbls.Signature
+			own  tbls.PublicKey
+		}{{"aggregate under pubshare j", Pj, A, G}, {"aggregate under pubshare k", Pk, A, G},
+			{"partial j under group key", G, B, Pj}, {"partial j under pubshare k", Pk, B, Pj}} {
+			ok := v(c.key, msg, c.sig)
+			if ok && c.key != c.own {
+				run.Violate("tbls:verify_accepts_other_key", fmt.Sprintf("%s (%s): %s accepted", desc, phase, c.name))
+			}
+			b.WriteString(b01(ok))
+		}
+		return b.String()
+	}
+	pre := negatives("before the successful verification")
+	r1, r2 := v(G, msg, A), v(Pj, msg, B)
+	r3, r4 := v(G, msg, A), v(Pj, msg, B)
+	post := negatives("after the successful verification")
+	r5, r6 := v(G, msg, A), v(Pj, msg, B)
+	if r1 != r3 || r1 != r5 || r2 != r4 || r2 != r6 || pre != post {
+		run.Violate("tbls:verify_not_idempotent", fmt.Sprintf("%s: repeated verifications of the same (key, message, signature) differ: right=%v/%v/%v %v/%v/%v pre=%s post=%s", desc, r1, r3, r5, r2, r4, r6, pre, post))
+	}
+	if e.qualified(ids) {
+		if !r1 {
+			run.Violate("tbls:aggregate_rejected_by_group_key", desc)
+		}
+		if !r2 {
+			run.Violate("tbls:partial_rejected_under_pubshare", fmt.Sprintf("share %d", j))
+		}
+		run.Case(fmt.Sprintf("vfy:%d:%d:%d:%d", e.n, e.t, len(ids), j))
+	}
+	return fmt.Sprintf("pre=%s right=%s%s%s%s post=%s again=%s%s", pre, b01(r1), b01(r2), b01(r3), b01(r4), post, b01(r5), b01(r6))
 }
 
 // doSub: `alter` replaces j's partial; `effective` says whether the substitution really changes
@@ -423,6 +504,12 @@ func main() {
 			hx.Must(err)
 			run.Count("submsg")
 			run.Op(op, ep.doSub(run, "message", ids, j, msg, repl, !bytes.Equal(msg, msg2) && ep.shares[j] != tbls.PrivateKey{}))
+		case f[0] == "vfy":
+			ids := parseIDs(f[1])
+			j, _ := strconv.Atoi(f[2])
+			k, _ := strconv.Atoi(f[3])
+			run.Count("vfy")
+			run.Op(op, ep.doVfy(run, ids, j, k, unhex(f[4]), [][]byte{unhex(f[5]), unhex(f[6]), unhex(f[7]), unhex(f[8])}))
 		default:
 			panic("bad op " + op)
 		}
@@ -492,6 +579,7 @@ func main() {
 			shapes = append(shapes, shape{n, t})
 		}
 	}
+	prevMsg := []byte("previously verified")
 	for run.NOps < a.N {
 		for _, si := range rng.Perm(len(shapes)) {
 			n, t := shapes[si].n, shapes[si].t
@@ -583,6 +671,40 @@ func main() {
 				sort.Ints(ids)
 				exec("rec " + idsStr(ids))
 				exec(fmt.Sprintf("sig %s %s", idsStr(ids), hexOf(msg)))
+			}
+			// -- Verify is a function of (key, message, signature): same bytes, other messages / keys, both orders
+			for q := 0; q < 4; q++ {
+				m := quals[rng.Intn(len(quals))]
+				if q == 0 {
+					m = full
+				}
+				ids := subsetIDs(m, n)
+				j := ids[rng.Intn(len(ids))]
+				k := 1 + rng.Intn(n)
+				for k == j {
+					k = 1 + rng.Intn(n)
+				}
+				vm := msg // the message verified in the sweep above (already accepted under the group key)
+				if q >= 2 {
+					vm = message() // a fresh one: wrong messages are tried first
+				}
+				flip := append([]byte{}, vm...)
+				if len(flip) == 0 {
+					flip = []byte{1}
+				} else {
+					flip[rng.Intn(len(flip))] ^= 1 << rng.Intn(8)
+				}
+				w1 := message()
+				w2 := prevMsg // a message accepted earlier (other key / other episode)
+				var w3 []byte // the empty message
+				if len(vm) == 0 {
+					w3 = []byte{0}
+				}
+				if rng.Chance(1, 12) {
+					w1 = vm // control: the right message
+				}
+				exec(fmt.Sprintf("vfy %s %d %d %s %s %s %s %s", idsStr(ids), j, k, hexOf(vm), hexOf(w1), hexOf(w2), hexOf(w3), hexOf(flip)))
+				prevMsg = vm
 			}
 			// -- single substitutions on a few qualified subsets: every position j
 			for k := 0; k < 4; k++ {
